@@ -20,7 +20,7 @@
    hypothesis [kv_sorted S = true] (which the store guarantees: Store_proofs.cur_sorted). *)
 From Coq Require Import List Bool Arith NArith Lia Permutation.
 From Nomt Require Import Base Hash Trie Result PathProof BuildTrie VerifyUpdate Witness
-     Base_proofs Trie_proofs BuildTrie_proofs.
+     Base_proofs Trie_proofs BuildTrie_proofs PathProof_proofs.
 Import ListNotations.
 
 Definition wlist := list (key * option value).
@@ -429,4 +429,1097 @@ Proof.
         cbn [wget]. rewrite IH by exact Hs.
         destruct (key_eqb k1 k) eqn:E1; [|reflexivity].
         destruct (key_eqb lk k); reflexivity.
+Qed.
+
+(* ---------- bit-level facts about paths ---------- *)
+
+Lemma common_app_lt : forall (a p x : key), common a p < length p -> common a (p ++ x) = common a p.
+Proof.
+  induction a as [|y a IH]; intros [|z p] x Hlt; cbn [length] in Hlt; try lia.
+  - reflexivity.
+  - cbn [app common]. cbn [common] in Hlt.
+    destruct (Bool.eqb y z); [|reflexivity].
+    f_equal. apply IH. lia.
+Qed.
+
+Lemma common_app_diff : forall (p z w : key) b,
+  common (p ++ b :: z) (p ++ negb b :: w) = length p.
+Proof.
+  induction p as [|y p IH]; intros z w b; cbn [app common length].
+  - destruct b; reflexivity.
+  - rewrite Bool.eqb_reflx. f_equal. apply IH.
+Qed.
+
+Lemma is_prefix_app_diff : forall (p z w : key) b,
+  is_prefix (p ++ b :: z) (p ++ negb b :: w) = false.
+Proof.
+  induction p as [|y p IH]; intros z w b; cbn [app is_prefix].
+  - destruct b; reflexivity.
+  - rewrite Bool.eqb_reflx. cbn [andb]. apply IH.
+Qed.
+
+Lemma key_ltb_app_ft : forall (p z w : key),
+  key_ltb (p ++ false :: z) (p ++ true :: w) = true.
+Proof.
+  induction p as [|y p IH]; intros z w; cbn [app key_ltb].
+  - reflexivity.
+  - rewrite Bool.eqb_reflx. apply IH.
+Qed.
+
+Lemma is_prefix_firstn : forall d (k : key), is_prefix (firstn d k) k = true.
+Proof.
+  induction d as [|d IH]; intros [|x k]; cbn [firstn is_prefix]; try reflexivity.
+  rewrite Bool.eqb_reflx. cbn [andb]. apply IH.
+Qed.
+
+(* a longer prefix of the key extends a shorter one *)
+Lemma firstn_add_ext : forall d j (k : key), exists z, firstn (d + j) k = firstn d k ++ z.
+Proof.
+  intros d j k. exists (skipn d (firstn (d + j) k)).
+  rewrite <- (firstn_skipn d (firstn (d + j) k)) at 1.
+  rewrite firstn_firstn. replace (Nat.min d (d + j)) with d by lia. reflexivity.
+Qed.
+
+(* ---------- the witness, relative to a sub-trie ---------- *)
+
+Section Groups.
+  Variable H : Hasher.
+
+  (* the verified path of k, the walk starting from sub-trie t at depth d whose siblings so
+     far (root first) are [sibs] *)
+  Definition vp_at (R0 : node H) (t : trie) (d : nat) (sibs : list (node H)) (k : key)
+    : verified H :=
+    let '(s, tm) := walk H t k d in
+    {| vp_path := firstn (d + length s) k;
+       vp_terminal := match tm with TLeaf k' v' => Some (k', v') | TTerm _ => None end;
+       vp_siblings := sibs ++ s;
+       vp_root := R0 |}.
+
+  Lemma vp_of_at : forall n S k, vp_of H n S k = vp_at (root_n H n S) (mk n 0 S) 0 [] k.
+  Proof.
+    intros n S k. unfold vp_of, vp_at.
+    destruct (walk H (mk n 0 S) k 0) as [s tm]. reflexivity.
+  Qed.
+
+  Lemma vp_at_E : forall R0 d sibs k,
+    vp_at R0 E d sibs k =
+    {| vp_path := firstn d k; vp_terminal := None; vp_siblings := sibs; vp_root := R0 |}.
+  Proof.
+    intros R0 d sibs k. unfold vp_at. cbn [walk length].
+    rewrite Nat.add_0_r, app_nil_r. reflexivity.
+  Qed.
+
+  Lemma vp_at_Lf : forall R0 k' v' d sibs k,
+    vp_at R0 (Lf k' v') d sibs k =
+    {| vp_path := firstn d k; vp_terminal := Some (k', v'); vp_siblings := sibs; vp_root := R0 |}.
+  Proof.
+    intros R0 k' v' d sibs k. unfold vp_at. cbn [walk length].
+    rewrite Nat.add_0_r, app_nil_r. reflexivity.
+  Qed.
+
+  Lemma vp_at_Br : forall R0 l r d sibs k,
+    vp_at R0 (Br l r) d sibs k =
+    vp_at R0 (if bit k d then r else l) (S d)
+          (sibs ++ [hash H (if bit k d then l else r)]) k.
+  Proof.
+    intros R0 l r d sibs k. unfold vp_at. cbn [walk].
+    destruct (bit k d).
+    - destruct (walk H r k (S d)) as [s tm]. cbn [length].
+      rewrite <- app_assoc. cbn [app].
+      replace (d + S (length s)) with (S d + length s) by lia. reflexivity.
+    - destruct (walk H l k (S d)) as [s tm]. cbn [length].
+      rewrite <- app_assoc. cbn [app].
+      replace (d + S (length s)) with (S d + length s) by lia. reflexivity.
+  Qed.
+
+  Lemma vp_at_path_ext : forall R0 t d sibs k,
+    exists z, vp_path (vp_at R0 t d sibs k) = firstn d k ++ z.
+  Proof.
+    intros R0 t d sibs k. unfold vp_at.
+    destruct (walk H t k d) as [s tm]. cbn [vp_path]. apply firstn_add_ext.
+  Qed.
+
+  Lemma vp_at_root : forall R0 t d sibs k, vp_root (vp_at R0 t d sibs k) = R0.
+  Proof.
+    intros R0 t d sibs k. unfold vp_at. destruct (walk H t k d) as [s tm]. reflexivity.
+  Qed.
+
+  (* group_fuel, parameterised by the path function *)
+  Fixpoint ggroup (vp : key -> verified H) (fuel : nat) (W : wlist) : list (path_update H) :=
+    match fuel, W with
+    | Datatypes.S f, (k, o) :: W' =>
+        let '(mine, rest) := span_under (vp_path (vp k)) W' in
+        {| pu_inner := vp k; pu_ops := (k, o) :: mine |} :: ggroup vp f rest
+    | _, _ => []
+    end.
+
+  Definition ggroupL (vp : key -> verified H) (W : wlist) := ggroup vp (length W) W.
+
+  Lemma group_fuel_ggroup : forall f n S W, group_fuel H f n S W = ggroup (vp_of H n S) f W.
+  Proof.
+    induction f as [|f IH]; intros n S W.
+    - reflexivity.
+    - destruct W as [|[k o] W']; [reflexivity|].
+      cbn [group_fuel ggroup].
+      destruct (span_under (vp_path (vp_of H n S k)) W') as [mine rest].
+      rewrite IH. reflexivity.
+  Qed.
+
+  Lemma ggroup_nil : forall vp f, ggroup vp f [] = [].
+  Proof. intros vp [|f]; reflexivity. Qed.
+
+  Lemma span_under_length : forall path W a b,
+    span_under path W = (a, b) -> length b <= length W.
+  Proof.
+    intros path. induction W as [|[k o] W IH]; intros a b Hs; cbn [span_under] in Hs.
+    - inversion Hs; subst. cbn. lia.
+    - destruct (is_prefix path k).
+      + destruct (span_under path W) as [a' b'] eqn:E. inversion Hs; subst.
+        specialize (IH a' b eq_refl). cbn [length]. lia.
+      + inversion Hs; subst. lia.
+  Qed.
+
+  Lemma span_under_sub : forall path W a b,
+    span_under path W = (a, b) -> forall c, In c b -> In c W.
+  Proof.
+    intros path. induction W as [|[k o] W IH]; intros a b Hs c Hin; cbn [span_under] in Hs.
+    - inversion Hs; subst. exact Hin.
+    - destruct (is_prefix path k).
+      + destruct (span_under path W) as [a' b'] eqn:E. inversion Hs; subst.
+        right. eapply IH; [reflexivity|exact Hin].
+      + inversion Hs; subst. exact Hin.
+  Qed.
+
+  Lemma span_under_all : forall path W,
+    (forall c, In c W -> is_prefix path (fst c) = true) -> span_under path W = (W, []).
+  Proof.
+    intros path. induction W as [|[k o] W IH]; intros Hall; cbn [span_under].
+    - reflexivity.
+    - pose proof (Hall (k, o) (or_introl eq_refl)) as E. cbn [fst] in E. rewrite E.
+      rewrite IH; [reflexivity|]. intros c Hin. apply Hall. right. exact Hin.
+  Qed.
+
+  Lemma span_under_app : forall path A B,
+    (forall c, In c B -> is_prefix path (fst c) = false) ->
+    span_under path (A ++ B) = (fst (span_under path A), snd (span_under path A) ++ B).
+  Proof.
+    intros path. induction A as [|[k o] A IH]; intros B HB; cbn [app span_under].
+    - destruct B as [|[k o] B]; [reflexivity|].
+      cbn [span_under]. pose proof (HB (k, o) (or_introl eq_refl)) as E. cbn [fst] in E.
+      rewrite E. reflexivity.
+    - destruct (is_prefix path k).
+      + rewrite IH by exact HB. destruct (span_under path A) as [a b]. reflexivity.
+      + reflexivity.
+  Qed.
+
+  Lemma ggroup_fuel_irrel : forall vp f1 f2 W, length W <= f1 -> length W <= f2 ->
+    ggroup vp f1 W = ggroup vp f2 W.
+  Proof.
+    intros vp. induction f1 as [|f1 IH]; intros f2 W H1 H2.
+    - destruct W; cbn [length] in H1; [|lia]. rewrite !ggroup_nil. reflexivity.
+    - destruct W as [|[k o] W]; [rewrite !ggroup_nil; reflexivity|].
+      destruct f2 as [|f2]; cbn [length] in H1, H2; [lia|].
+      cbn [ggroup]. destruct (span_under (vp_path (vp k)) W) as [a b] eqn:E.
+      pose proof (span_under_length _ _ _ _ E) as Hl.
+      f_equal. apply IH; lia.
+  Qed.
+
+  Lemma ggroup_ext : forall vp1 vp2 f W,
+    (forall c, In c W -> vp1 (fst c) = vp2 (fst c)) -> ggroup vp1 f W = ggroup vp2 f W.
+  Proof.
+    intros vp1 vp2. induction f as [|f IH]; intros W Hall.
+    - reflexivity.
+    - destruct W as [|[k o] W]; [reflexivity|].
+      cbn [ggroup]. pose proof (Hall (k, o) (or_introl eq_refl)) as E0. cbn [fst] in E0.
+      rewrite <- E0.
+      destruct (span_under (vp_path (vp1 k)) W) as [a b] eqn:E.
+      f_equal. apply IH. intros c Hin. apply Hall. right.
+      eapply span_under_sub; [exact E|exact Hin].
+  Qed.
+
+  Lemma ggroup_app : forall vp f A B fa fb,
+    length (A ++ B) <= f -> length A <= fa -> length B <= fb ->
+    (forall c c', In c A -> In c' B -> is_prefix (vp_path (vp (fst c))) (fst c') = false) ->
+    ggroup vp f (A ++ B) = ggroup vp fa A ++ ggroup vp fb B.
+  Proof.
+    intros vp. induction f as [|f IH]; intros A B fa fb Hf Hfa Hfb Hsep.
+    - destruct A as [|a A]; cbn [app length] in Hf; [|lia].
+      rewrite ggroup_nil. cbn [app]. apply ggroup_fuel_irrel; [exact Hf|exact Hfb].
+    - destruct A as [|[k o] A].
+      + rewrite ggroup_nil. cbn [app]. apply ggroup_fuel_irrel; [exact Hf|exact Hfb].
+      + destruct fa as [|fa]; cbn [length] in Hfa; [lia|].
+        cbn [app length] in Hf. cbn [app ggroup].
+        rewrite span_under_app.
+        * destruct (span_under (vp_path (vp k)) A) as [a b] eqn:E. cbn [fst snd].
+          pose proof (span_under_length _ _ _ _ E) as Hl.
+          cbn [app]. f_equal. apply IH.
+          -- rewrite app_length in *. lia.
+          -- lia.
+          -- exact Hfb.
+          -- intros c c' Hc Hc'. apply Hsep; [|exact Hc']. right.
+             eapply span_under_sub; [exact E|exact Hc].
+        * intros c' Hc'. apply (Hsep (k, o) c'); [left; reflexivity|exact Hc'].
+  Qed.
+
+  Lemma ggroupL_cons : forall vp k o W, exists ops G,
+    ggroupL vp ((k, o) :: W) = {| pu_inner := vp k; pu_ops := ops |} :: G.
+  Proof.
+    intros vp k o W. unfold ggroupL. cbn [length ggroup].
+    destruct (span_under (vp_path (vp k)) W) as [a b]. eexists. eexists. reflexivity.
+  Qed.
+
+  (* at an internal node the groups are those of the left side followed by those of the right *)
+  Lemma ggroup_Br : forall n R0 l r d p sibs Wp, d < n -> goodW n d p Wp ->
+    ggroupL (vp_at R0 (Br l r) d sibs) Wp =
+    ggroupL (vp_at R0 l (S d) (sibs ++ [hash H r])) (gside false d Wp) ++
+    ggroupL (vp_at R0 r (S d) (sibs ++ [hash H l])) (gside true d Wp).
+  Proof.
+    intros n R0 l r d p sibs Wp Hd Hg.
+    pose proof (gside_split n d p Wp Hd Hg) as Hsplit.
+    destruct Hg as [Hs Hall].
+    assert (Hside : forall b c, In c (gside b d Wp) ->
+              exists z, fst c = p ++ b :: z).
+    { intros b c Hin. apply In_gside in Hin. destruct Hin as [Hin Hb].
+      destruct (Hall c Hin) as [Hl Hp].
+      exists (skipn (S d) (fst c)).
+      rewrite <- (firstn_skipn (S d) (fst c)) at 1.
+      rewrite firstn_S_bit by lia. rewrite Hp, Hb, <- app_assoc. reflexivity. }
+    unfold ggroupL.
+    transitivity (ggroup (vp_at R0 (Br l r) d sibs) (length Wp)
+                         (gside false d Wp ++ gside true d Wp)).
+    { f_equal. exact Hsplit. }
+    rewrite (ggroup_app _ _ _ _ (length (gside false d Wp)) (length (gside true d Wp))).
+    - f_equal; apply ggroup_ext; intros c Hin; rewrite vp_at_Br;
+        apply In_gside in Hin; destruct Hin as [_ Hb]; rewrite Hb; reflexivity.
+    - rewrite <- Hsplit. lia.
+    - lia.
+    - lia.
+    - intros c c' Hc Hc'.
+      destruct (Hside _ _ Hc') as [w Hw].
+      pose proof Hc as Hc0. apply In_gside in Hc0. destruct Hc0 as [Hin Hb].
+      destruct (Hall c Hin) as [Hl Hp].
+      rewrite vp_at_Br. rewrite Hb.
+      destruct (vp_at_path_ext R0 l (S d) (sibs ++ [hash H r]) (fst c)) as [z Hz].
+      rewrite Hz, Hw. rewrite firstn_S_bit by lia. rewrite Hp, Hb, <- app_assoc.
+      cbn [app]. apply (is_prefix_app_diff p z w false).
+  Qed.
+End Groups.
+
+(* ---------- the main loop ---------- *)
+
+Section Loop.
+  Variable H : Hasher.
+  Hypothesis HOK : HasherOK H.
+  Variable n : nat.          (* key length *)
+  Variable R0 : node H.      (* the prior root recorded in every verified path *)
+
+  (* layer at which the current group stops climbing: one below the divergence point with the
+     next group's path (0 = the root when there is no next group) *)
+  Definition tlayer (rest : list (path_update H)) (p : key) : nat :=
+    match rest with
+    | [] => 0
+    | q :: _ => common (vp_path (pu_inner q)) p + 1
+    end.
+
+  Definition top_le (l : nat) (pend : list (node H * nat)) : Prop :=
+    match pend with [] => True | (_, l') :: _ => l' <= l end.
+
+  Lemma tlayer_app : forall rest p x, tlayer rest p <= length p ->
+    tlayer rest (p ++ x) = tlayer rest p.
+  Proof.
+    intros [|q rest] p x Hle; cbn [tlayer] in *; [reflexivity|].
+    rewrite common_app_lt by lia. reflexivity.
+  Qed.
+
+  Lemma up_pairs_snoc : forall (p : key) b (sibs : list (node H)) s u,
+    up_pairs H (p ++ [b]) (sibs ++ [s]) (S u) = (b, s) :: up_pairs H p sibs u.
+  Proof.
+    intros p b sibs s u. unfold up_pairs. rewrite !rev_app_distr. reflexivity.
+  Qed.
+
+  Lemma cu_step_pop : forall b s0 pairs cur l s pend,
+    compact_up H ((b, s0) :: pairs) cur (S l) ((s, S l) :: pend) =
+    compact_up H pairs (cnode H cur s b) l pend.
+  Proof.
+    intros b s0 pairs cur l s pend. cbn [compact_up].
+    rewrite Nat.eqb_refl. replace (S l - 1) with l by lia. reflexivity.
+  Qed.
+
+  Lemma cu_step_keep : forall b s0 pairs cur l pend, top_le l pend ->
+    compact_up H ((b, s0) :: pairs) cur (S l) pend =
+    compact_up H pairs (cnode H cur s0 b) l pend.
+  Proof.
+    intros b s0 pairs cur l pend Htop. cbn [compact_up].
+    replace (S l - 1) with l by lia.
+    destruct pend as [|[s l'] pend]; [reflexivity|].
+    cbn [top_le] in Htop.
+    destruct (Nat.eqb l' (S l)) eqn:E; [|reflexivity].
+    apply Nat.eqb_eq in E. lia.
+  Qed.
+
+  (* one iteration of the loop, for a group whose sub-trie root is known *)
+  Lemma vu_loop_one : forall g rest pend sub d,
+    length (vp_path (pu_inner g)) = d ->
+    tlayer rest (vp_path (pu_inner g)) <= d ->
+    build_trie H n d (leaf_ops_spliced (vp_terminal (pu_inner g)) (pu_ops g)) = Ok sub ->
+    vu_loop H n (g :: rest) pend =
+    (let '(cur, pend') :=
+       compact_up H (up_pairs H (vp_path (pu_inner g)) (vp_siblings (pu_inner g))
+                              (d - tlayer rest (vp_path (pu_inner g)))) sub d pend in
+     vu_loop H n rest ((cur, tlayer rest (vp_path (pu_inner g))) :: pend')).
+  Proof.
+    intros g rest pend sub d Hlen Htl Hbt.
+    destruct rest as [|q rest].
+    - cbn [tlayer] in *. cbn [vu_loop]. rewrite Hlen, Hbt.
+      replace (d - 0) with d by lia.
+      destruct (compact_up H (up_pairs H (vp_path (pu_inner g)) (vp_siblings (pu_inner g)) d)
+                           sub d pend) as [cur pend'].
+      replace (d - d) with 0 by lia. reflexivity.
+    - cbn [tlayer] in *.
+      set (c := common (vp_path (pu_inner q)) (vp_path (pu_inner g))) in *.
+      change (vu_loop H n (g :: q :: rest) pend) with
+        (match (if Nat.eqb c (length (vp_path (pu_inner g))) then Err PathsOutOfOrder
+                else if Nat.ltb (length (vp_path (pu_inner g))) (c + 1) then Panic
+                else Ok (length (vp_path (pu_inner g)) - (c + 1))) with
+         | Panic => Panic
+         | Err e => Err e
+         | Ok up =>
+             match build_trie H n (length (vp_path (pu_inner g)))
+                     (leaf_ops_spliced (vp_terminal (pu_inner g)) (pu_ops g)) with
+             | Panic => Panic
+             | Err e => match e with end
+             | Ok sub_root =>
+                 let '(cur_node, pending') :=
+                   compact_up H (up_pairs H (vp_path (pu_inner g)) (vp_siblings (pu_inner g)) up)
+                              sub_root (length (vp_path (pu_inner g))) pend in
+                 vu_loop H n (q :: rest)
+                   ((cur_node, length (vp_path (pu_inner g)) - up) :: pending')
+             end
+         end).
+      rewrite Hlen.
+      assert (E : Nat.ltb d (c + 1) = false) by (apply Nat.ltb_ge; lia).
+      (* canonical groups are never prefixes of each other: the next path diverges above d *)
+      assert (E' : Nat.eqb c d = false) by (apply Nat.eqb_neq; lia).
+      rewrite E', E, Hbt.
+      destruct (compact_up H (up_pairs H (vp_path (pu_inner g)) (vp_siblings (pu_inner g))
+                                       (d - (c + 1))) sub d pend) as [cur pend'].
+      replace (d - (d - (c + 1))) with (c + 1) by lia. reflexivity.
+  Qed.
+
+  (* the new pairs below a terminal are what leaf_ops_spliced produces *)
+  Lemma terminal_ops : forall f d p (Sp Sp' : kv) (Wp : wlist) tm,
+    d + f = n ->
+    (Sp = [] /\ tm = None \/ exists lk lv, Sp = [(lk, lv)] /\ tm = Some (lk, lv)) ->
+    goodkv n d p Sp -> goodkv n d p Sp' -> goodW n d p Wp -> upd_rel Sp Wp Sp' ->
+    build_trie H n d (leaf_ops_spliced tm Wp) = Ok (hash H (mk f d Sp')).
+  Proof.
+    intros f d p Sp Sp' Wp tm Hn Htm HgS HgS' [HsW HallW] HR.
+    set (X := match tm with Some (lk, lv) => splice lk lv Wp | None => Wp end).
+    assert (HsX : sorted_keys (map fst X) = true).
+    { unfold X. destruct tm as [[lk lv]|]; [apply sorted_splice|]; exact HsW. }
+    assert (HallX : forall c, In c X -> length (fst c) = n /\ firstn d (fst c) = p).
+    { unfold X. intros c Hin. destruct Htm as [[_ ->]|[lk [lv [HSp ->]]]].
+      - apply HallW. exact Hin.
+      - apply In_splice in Hin. destruct Hin as [Heq|Hin]; [|apply HallW; exact Hin].
+        subst c. cbn [fst]. destruct HgS as [_ HallS]. apply (HallS lk lv).
+        rewrite HSp. left. reflexivity. }
+    assert (HgetX : forall k, get (live_ops X) k = get Sp' k).
+    { intros k. rewrite get_live by (apply sk_NoDup; exact HsX).
+      rewrite (HR k). unfold X. destruct Htm as [[-> ->]|[lk [lv [-> ->]]]].
+      - cbn [get]. destruct (wget Wp k) as [[v|]|]; reflexivity.
+      - rewrite wget_splice by exact HsW. cbn [get].
+        destruct (key_eqb lk k); destruct (wget Wp k) as [[v|]|]; reflexivity. }
+    assert (Hops : leaf_ops_spliced tm Wp = live_ops X).
+    { unfold leaf_ops_spliced, X. destruct tm as [[lk lv]|]; reflexivity. }
+    rewrite Hops.
+    rewrite build_trie_spec.
+    - replace (n - d) with f by lia. f_equal. f_equal. apply mk_perm.
+      apply NoDup_get_perm.
+      + apply sk_NoDup. apply sorted_live. exact HsX.
+      + apply HgS'.
+      + exact HgetX.
+    - lia.
+    - apply sorted_live. exact HsX.
+    - intros k v Hin. apply In_live in Hin. apply (HallX _ Hin).
+    - intros k v k' v' Hin Hin'. apply In_live in Hin. apply In_live in Hin'.
+      destruct (HallX _ Hin) as [_ P1]. destruct (HallX _ Hin') as [_ P2].
+      cbn [fst] in P1, P2. congruence.
+  Qed.
+
+  Definition segment_goal (f d : nat) (p : key) (sibs : list (node H)) (Sp Sp' : kv)
+             (Wp : wlist) (rest : list (path_update H)) (pend : list (node H * nat)) : Prop :=
+    vu_loop H n (ggroupL H (vp_at H R0 (mk f d Sp) d sibs) Wp ++ rest) pend =
+    (let '(cur, pend') :=
+       compact_up H (up_pairs H p sibs (d - tlayer rest p)) (hash H (mk f d Sp')) d pend in
+     vu_loop H n rest ((cur, tlayer rest p) :: pend')).
+
+  Lemma segment_terminal : forall f d p sibs Sp Sp' Wp rest pend,
+    d + f = n -> length p = d ->
+    (Sp = [] \/ exists lk lv, Sp = [(lk, lv)]) ->
+    goodkv n d p Sp -> goodkv n d p Sp' -> Wp <> [] -> goodW n d p Wp ->
+    upd_rel Sp Wp Sp' -> tlayer rest p <= d ->
+    segment_goal f d p sibs Sp Sp' Wp rest pend.
+  Proof.
+    intros f d p sibs Sp Sp' Wp rest pend Hn Hp HSp HgS HgS' Hne HgW HR Htl.
+    unfold segment_goal.
+    destruct Wp as [|[k0 o0] W']; [congruence|].
+    assert (Hk0 : length k0 = n /\ firstn d k0 = p).
+    { destruct HgW as [_ Hall]. apply (Hall (k0, o0)). left. reflexivity. }
+    destruct Hk0 as [Hl0 Hp0].
+    set (tm := match Sp with [(lk, lv)] => Some (lk, lv) | _ => None end).
+    assert (Hvp : forall k, vp_at H R0 (mk f d Sp) d sibs k =
+              {| vp_path := firstn d k; vp_terminal := tm; vp_siblings := sibs; vp_root := R0 |}).
+    { intros k. unfold tm. destruct HSp as [->|[lk [lv ->]]].
+      - rewrite mk_nil. apply vp_at_E.
+      - rewrite mk_single. apply vp_at_Lf. }
+    assert (Hg : ggroupL H (vp_at H R0 (mk f d Sp) d sibs) ((k0, o0) :: W') =
+                 [{| pu_inner := {| vp_path := p; vp_terminal := tm; vp_siblings := sibs;
+                                    vp_root := R0 |};
+                     pu_ops := (k0, o0) :: W' |}]).
+    { unfold ggroupL. cbn [length ggroup]. rewrite Hvp. cbn [vp_path]. rewrite Hp0.
+      rewrite span_under_all.
+      - rewrite ggroup_nil. reflexivity.
+      - intros c Hin. destruct HgW as [_ Hall].
+        destruct (Hall c (or_intror Hin)) as [_ Hpc]. rewrite <- Hpc.
+        apply is_prefix_firstn. }
+    rewrite Hg. cbn [app].
+    rewrite (vu_loop_one _ rest pend (hash H (mk f d Sp')) d).
+    - reflexivity.
+    - exact Hp.
+    - exact Htl.
+    - cbn [pu_inner vp_terminal pu_ops].
+      apply (terminal_ops f d p Sp Sp' ((k0, o0) :: W') tm); try assumption.
+      unfold tm. destruct HSp as [->|[lk [lv ->]]].
+      + left. split; reflexivity.
+      + right. exists lk, lv. split; reflexivity.
+  Qed.
+
+  Lemma up_pairs_0 : forall (p : key) (sibs : list (node H)), up_pairs H p sibs 0 = [].
+  Proof. reflexivity. Qed.
+
+  Lemma ggroupL_nil : forall vp, ggroupL H vp [] = [].
+  Proof. reflexivity. Qed.
+
+  (* the path of the first group of a non-empty right side diverges from the left position
+     exactly at depth d *)
+  Lemma tlayer_right : forall t d p sibs (W1 : wlist) rest,
+    length p = d -> d < n -> W1 <> [] -> goodW n (S d) (p ++ [true]) W1 ->
+    tlayer (ggroupL H (vp_at H R0 t (S d) sibs) W1 ++ rest) (p ++ [false]) = S d.
+  Proof.
+    intros t d p sibs W1 rest Hp Hd Hne [_ Hall].
+    destruct W1 as [|[k1 o1] W1]; [congruence|].
+    destruct (ggroupL_cons H (vp_at H R0 t (S d) sibs) k1 o1 W1) as [ops [G HG]].
+    rewrite HG. cbn [app tlayer pu_inner].
+    destruct (vp_at_path_ext H R0 t (S d) sibs k1) as [z Hz]. rewrite Hz.
+    destruct (Hall (k1, o1) (or_introl eq_refl)) as [_ Hp1]. cbn [fst] in Hp1.
+    rewrite Hp1, <- app_assoc. cbn [app].
+    pose proof (common_app_diff p z [] true) as Hc. cbn [negb] in Hc. rewrite Hc. lia.
+  Qed.
+
+  Lemma segment : forall f d p sibs Sp Sp' Wp rest pend,
+    d + f = n -> length p = d ->
+    goodkv n d p Sp -> goodkv n d p Sp' -> Wp <> [] -> goodW n d p Wp ->
+    upd_rel Sp Wp Sp' -> tlayer rest p <= d -> top_le d pend ->
+    segment_goal f d p sibs Sp Sp' Wp rest pend.
+  Proof.
+    induction f as [|f IH];
+      intros d p sibs Sp Sp' Wp rest pend Hn Hp HgS HgS' Hne HgW HR Htl Htop;
+      destruct (kv_cases Sp) as [HL|[[lk [lv HL]]|Hge]].
+    - apply segment_terminal; try assumption. left. exact HL.
+    - apply segment_terminal; try assumption. right. exists lk, lv. exact HL.
+    - exfalso. apply (no_fuel0 d Sp); try assumption.
+      + apply HgS.
+      + intros k v Hin. destruct HgS as [_ Hall]. destruct (Hall k v Hin) as [Hl _]. lia.
+      + eapply goodkv_agree. exact HgS.
+    - apply segment_terminal; try assumption. left. exact HL.
+    - apply segment_terminal; try assumption. right. exists lk, lv. exact HL.
+    - (* an internal node of the old trie *)
+      assert (Hd : d < n) by lia.
+      unfold segment_goal. rewrite (mk_ge2 f d Sp Hge).
+      rewrite (ggroup_Br H n R0 _ _ d p sibs Wp Hd HgW).
+      pose proof (gside_split n d p Wp Hd HgW) as Hsplit.
+      pose proof (goodW_gside n d p false Wp Hd HgW) as HgW0.
+      pose proof (goodW_gside n d p true Wp Hd HgW) as HgW1.
+      pose proof (goodkv_side n d p false Sp Hd HgS) as HgS0.
+      pose proof (goodkv_side n d p true Sp Hd HgS) as HgS1.
+      pose proof (goodkv_side n d p false Sp' Hd HgS') as HgS0'.
+      pose proof (goodkv_side n d p true Sp' Hd HgS') as HgS1'.
+      pose proof (upd_rel_side false d _ _ _ HR) as HR0.
+      pose proof (upd_rel_side true d _ _ _ HR) as HR1.
+      assert (Hlen' : forall k v, In (k, v) Sp' -> length k = d + S f).
+      { intros k v Hin. destruct HgS' as [_ Hall]. destruct (Hall k v Hin) as [Hl _]. lia. }
+      pose proof (cnode_mk H HOK f d Sp' true (proj1 HgS') Hlen' (goodkv_agree _ _ _ _ HgS')) as Hc1.
+      pose proof (cnode_mk H HOK f d Sp' false (proj1 HgS') Hlen' (goodkv_agree _ _ _ _ HgS')) as Hc0.
+      cbn [negb] in Hc1, Hc0.
+      assert (Hpl : forall b, length (p ++ [b]) = S d).
+      { intros b. rewrite app_length. cbn [length]. lia. }
+      assert (Htlb : forall b, tlayer rest (p ++ [b]) = tlayer rest p).
+      { intros b. apply tlayer_app. lia. }
+      assert (Hsub : S d - tlayer rest p = S (d - tlayer rest p)) by lia.
+      assert (Htop' : top_le (S d) pend).
+      { destruct pend as [|[s l'] pend]; cbn [top_le] in *; lia. }
+      set (W0 := gside false d Wp) in *.
+      set (W1 := gside true d Wp) in *.
+      assert (HW0 : W0 = [] \/ W0 <> []) by (destruct W0; [left; reflexivity|right; discriminate]).
+      assert (HW1 : W1 = [] \/ W1 <> []) by (destruct W1; [left; reflexivity|right; discriminate]).
+      destruct HW0 as [E0|N0].
+      + (* no write on the left *)
+        assert (N1 : W1 <> []).
+        { intros E1. rewrite E0, E1 in Hsplit. cbn [app] in Hsplit. congruence. }
+        rewrite E0, ggroupL_nil. cbn [app].
+        pose proof (IH (S d) (p ++ [true])
+                       (sibs ++ [hash H (mk f (S d) (side false d Sp))])
+                       (side true d Sp) (side true d Sp') W1 rest pend) as IH1.
+        unfold segment_goal in IH1. rewrite IH1; try assumption; try lia.
+        * rewrite Htlb, Hsub, up_pairs_snoc.
+          rewrite cu_step_keep by exact Htop.
+          rewrite <- (mk_untouched n d p f false Sp Wp Sp' HgS HgS' HR E0).
+          rewrite Hc1. reflexivity.
+        * apply Hpl.
+        * rewrite Htlb. lia.
+      + destruct HW1 as [E1|N1].
+        * (* no write on the right *)
+          rewrite E1, ggroupL_nil, app_nil_r.
+          pose proof (IH (S d) (p ++ [false])
+                         (sibs ++ [hash H (mk f (S d) (side true d Sp))])
+                         (side false d Sp) (side false d Sp') W0 rest pend) as IH0.
+          unfold segment_goal in IH0. rewrite IH0; try assumption; try lia.
+          -- rewrite Htlb, Hsub, up_pairs_snoc.
+             rewrite cu_step_keep by exact Htop.
+             rewrite <- (mk_untouched n d p f true Sp Wp Sp' HgS HgS' HR E1).
+             rewrite Hc0. reflexivity.
+          -- apply Hpl.
+          -- rewrite Htlb. lia.
+        * (* writes on both sides *)
+          rewrite <- app_assoc.
+          pose proof (tlayer_right (mk f (S d) (side true d Sp)) d p
+                        (sibs ++ [hash H (mk f (S d) (side false d Sp))]) W1 rest
+                        Hp Hd N1 HgW1) as Htl0.
+          pose proof (IH (S d) (p ++ [false])
+                         (sibs ++ [hash H (mk f (S d) (side true d Sp))])
+                         (side false d Sp) (side false d Sp') W0
+                         (ggroupL H (vp_at H R0 (mk f (S d) (side true d Sp)) (S d)
+                                           (sibs ++ [hash H (mk f (S d) (side false d Sp))])) W1
+                          ++ rest) pend) as IH0.
+          unfold segment_goal in IH0. rewrite IH0; try assumption; try lia.
+          -- rewrite Htl0, Nat.sub_diag, up_pairs_0. cbn [compact_up].
+             pose proof (IH (S d) (p ++ [true])
+                            (sibs ++ [hash H (mk f (S d) (side false d Sp))])
+                            (side true d Sp) (side true d Sp') W1 rest
+                            ((hash H (mk f (S d) (side false d Sp')), S d) :: pend)) as IH1.
+             unfold segment_goal in IH1. rewrite IH1; try assumption; try lia.
+             ++ rewrite Htlb, Hsub, up_pairs_snoc.
+                rewrite cu_step_pop. rewrite Hc1. reflexivity.
+             ++ apply Hpl.
+             ++ rewrite Htlb. lia.
+             ++ cbn [top_le]. lia.
+          -- apply Hpl.
+  Qed.
+End Loop.
+
+(* ---------- the preliminary checks of verify_update pass on the canonical witness ---------- *)
+
+Section Check.
+  Variable H : Hasher.
+  Hypothesis HOK : HasherOK H.
+  Variable n : nat.
+  Variable R0 : node H.
+
+  Lemma check_ops_ok : forall path ops prev,
+    (forall c, In c ops -> is_prefix path (fst c) = true) ->
+    sorted_keys (match prev with Some q => q :: map fst ops | None => map fst ops end) = true ->
+    check_ops path prev ops = None.
+  Proof.
+    intros path. induction ops as [|[k o] ops IH]; intros prev Hpre Hs.
+    - reflexivity.
+    - pose proof (Hpre (k, o) (or_introl eq_refl)) as Hk. cbn [fst] in Hk.
+      assert (Hpre' : forall c, In c ops -> is_prefix path (fst c) = true).
+      { intros c Hin. apply Hpre. right. exact Hin. }
+      cbn [check_ops]. destruct prev as [q|].
+      + cbn [map fst] in Hs.
+        change (key_ltb q k && sorted_keys (k :: map fst ops) = true) in Hs.
+        apply andb_true_iff in Hs. destruct Hs as [Hlt Hs].
+        unfold path_ge. rewrite Hlt. cbn [negb]. rewrite Hk.
+        apply IH; [exact Hpre'|exact Hs].
+      + rewrite Hk. apply IH; [exact Hpre'|exact Hs].
+  Qed.
+
+  (* the previous path is smaller than everything below position p *)
+  Definition prev_ok (prev : option key) (p : key) : Prop :=
+    match prev with None => True | Some q => forall x, key_ltb q (p ++ x) = true end.
+
+  Lemma ggroup_terminal : forall f d p sibs (Sp : kv) (Wp : wlist),
+    (Sp = [] \/ exists lk lv, Sp = [(lk, lv)]) -> Wp <> [] -> goodW n d p Wp ->
+    exists tm,
+      ggroupL H (vp_at H R0 (mk f d Sp) d sibs) Wp =
+      [{| pu_inner := {| vp_path := p; vp_terminal := tm; vp_siblings := sibs; vp_root := R0 |};
+          pu_ops := Wp |}].
+  Proof.
+    intros f d p sibs Sp Wp HSp Hne HgW.
+    destruct Wp as [|[k0 o0] W']; [congruence|].
+    destruct HgW as [_ Hall].
+    destruct (Hall (k0, o0) (or_introl eq_refl)) as [_ Hp0]. cbn [fst] in Hp0.
+    exists (match Sp with [(lk, lv)] => Some (lk, lv) | _ => None end).
+    assert (Hvp : forall k, vp_at H R0 (mk f d Sp) d sibs k =
+              {| vp_path := firstn d k;
+                 vp_terminal := match Sp with [(lk, lv)] => Some (lk, lv) | _ => None end;
+                 vp_siblings := sibs; vp_root := R0 |}).
+    { intros k. destruct HSp as [->|[lk [lv ->]]].
+      - rewrite mk_nil. apply vp_at_E.
+      - rewrite mk_single. apply vp_at_Lf. }
+    unfold ggroupL. cbn [length ggroup]. rewrite Hvp. cbn [vp_path]. rewrite Hp0.
+    rewrite span_under_all.
+    - rewrite ggroup_nil. reflexivity.
+    - intros c Hin. destruct (Hall c (or_intror Hin)) as [_ Hpc]. rewrite <- Hpc.
+      apply is_prefix_firstn.
+  Qed.
+
+  Lemma chk_terminal : forall f d p sibs Sp Wp rest prev,
+    (Sp = [] \/ exists lk lv, Sp = [(lk, lv)]) -> Wp <> [] -> goodW n d p Wp ->
+    prev_ok prev p ->
+    check_paths H R0 prev (ggroupL H (vp_at H R0 (mk f d Sp) d sibs) Wp ++ rest) =
+    check_paths H R0 (Some (p ++ [])) rest.
+  Proof.
+    intros f d p sibs Sp Wp rest prev HSp Hne HgW Hprev.
+    destruct (ggroup_terminal f d p sibs Sp Wp HSp Hne HgW) as [tm Hg].
+    rewrite Hg. cbn [app check_paths pu_inner vp_root vp_path pu_ops].
+    assert (Heq : node_eqb H R0 R0 = true) by (apply (eqb_ok H HOK); reflexivity).
+    rewrite Heq. cbn [negb].
+    assert (Hord : match prev with Some q => path_ge q p | None => false end = false).
+    { destruct prev as [q|]; [|reflexivity]. cbn [prev_ok] in Hprev.
+      specialize (Hprev []). rewrite app_nil_r in Hprev.
+      unfold path_ge. rewrite Hprev. reflexivity. }
+    rewrite Hord.
+    destruct HgW as [Hs Hall].
+    assert (Hco : check_ops p None Wp = None).
+    { apply check_ops_ok; [|exact Hs].
+      intros c Hin. destruct (Hall c Hin) as [_ Hpc]. rewrite <- Hpc. apply is_prefix_firstn. }
+    rewrite Hco. rewrite app_nil_r.
+    destruct Wp as [|c W']; [congruence|]. reflexivity.
+  Qed.
+
+  Lemma chk_segment : forall f d p sibs Sp Wp rest prev,
+    d + f = n -> length p = d -> goodkv n d p Sp -> Wp <> [] -> goodW n d p Wp ->
+    prev_ok prev p ->
+    exists y,
+      check_paths H R0 prev (ggroupL H (vp_at H R0 (mk f d Sp) d sibs) Wp ++ rest) =
+      check_paths H R0 (Some (p ++ y)) rest.
+  Proof.
+    induction f as [|f IH]; intros d p sibs Sp Wp rest prev Hn Hp HgS Hne HgW Hprev;
+      destruct (kv_cases Sp) as [HL|[[lk [lv HL]]|Hge]].
+    - exists []. apply chk_terminal; try assumption. left. exact HL.
+    - exists []. apply chk_terminal; try assumption. right. exists lk, lv. exact HL.
+    - exfalso. apply (no_fuel0 d Sp); try assumption.
+      + apply HgS.
+      + intros k v Hin. destruct HgS as [_ Hall]. destruct (Hall k v Hin) as [Hl _]. lia.
+      + eapply goodkv_agree. exact HgS.
+    - exists []. apply chk_terminal; try assumption. left. exact HL.
+    - exists []. apply chk_terminal; try assumption. right. exists lk, lv. exact HL.
+    - assert (Hd : d < n) by lia.
+      rewrite (mk_ge2 f d Sp Hge).
+      rewrite (ggroup_Br H n R0 _ _ d p sibs Wp Hd HgW).
+      pose proof (gside_split n d p Wp Hd HgW) as Hsplit.
+      pose proof (goodW_gside n d p false Wp Hd HgW) as HgW0.
+      pose proof (goodW_gside n d p true Wp Hd HgW) as HgW1.
+      pose proof (goodkv_side n d p false Sp Hd HgS) as HgS0.
+      pose proof (goodkv_side n d p true Sp Hd HgS) as HgS1.
+      assert (Hpl : forall b, length (p ++ [b]) = S d).
+      { intros b. rewrite app_length. cbn [length]. lia. }
+      assert (Hprevb : forall b, prev_ok prev (p ++ [b])).
+      { intros b. destruct prev as [q|]; [|exact I]. cbn [prev_ok] in *.
+        intros x. rewrite <- app_assoc. apply Hprev. }
+      set (W0 := gside false d Wp) in *.
+      set (W1 := gside true d Wp) in *.
+      assert (HW0 : W0 = [] \/ W0 <> []) by (destruct W0; [left; reflexivity|right; discriminate]).
+      assert (HW1 : W1 = [] \/ W1 <> []) by (destruct W1; [left; reflexivity|right; discriminate]).
+      destruct HW0 as [E0|N0].
+      + assert (N1 : W1 <> []).
+        { intros E1. rewrite E0, E1 in Hsplit. cbn [app] in Hsplit. congruence. }
+        rewrite E0, ggroupL_nil. cbn [app].
+        destruct (IH (S d) (p ++ [true]) (sibs ++ [hash H (mk f (S d) (side false d Sp))])
+                     (side true d Sp) W1 rest prev) as [y Hy]; try assumption; try lia.
+        * apply Hpl.
+        * apply Hprevb.
+        * exists (true :: y). rewrite Hy. rewrite <- app_assoc. reflexivity.
+      + destruct HW1 as [E1|N1].
+        * rewrite E1, ggroupL_nil, app_nil_r.
+          destruct (IH (S d) (p ++ [false]) (sibs ++ [hash H (mk f (S d) (side true d Sp))])
+                       (side false d Sp) W0 rest prev) as [y Hy]; try assumption; try lia.
+          -- apply Hpl.
+          -- apply Hprevb.
+          -- exists (false :: y). rewrite Hy. rewrite <- app_assoc. reflexivity.
+        * rewrite <- app_assoc.
+          destruct (IH (S d) (p ++ [false]) (sibs ++ [hash H (mk f (S d) (side true d Sp))])
+                       (side false d Sp) W0
+                       (ggroupL H (vp_at H R0 (mk f (S d) (side true d Sp)) (S d)
+                                         (sibs ++ [hash H (mk f (S d) (side false d Sp))])) W1
+                        ++ rest) prev) as [y0 Hy0]; try assumption; try lia.
+          -- apply Hpl.
+          -- apply Hprevb.
+          -- rewrite Hy0.
+             destruct (IH (S d) (p ++ [true]) (sibs ++ [hash H (mk f (S d) (side false d Sp))])
+                          (side true d Sp) W1 rest (Some ((p ++ [false]) ++ y0)))
+               as [y Hy]; try assumption; try lia.
+             ++ apply Hpl.
+             ++ cbn [prev_ok]. intros x. rewrite <- !app_assoc. cbn [app].
+                apply key_ltb_app_ft.
+             ++ exists (true :: y). rewrite Hy. rewrite <- app_assoc. reflexivity.
+  Qed.
+End Check.
+
+(* ---------- the theorems ---------- *)
+
+Lemma wget_In : forall W k o, wget W k = Some o -> In (k, o) W.
+Proof.
+  induction W as [|[k1 o1] W IH]; intros k o Hw; cbn [wget] in Hw.
+  - discriminate.
+  - destruct (key_eqb k1 k) eqn:E.
+    + apply key_eqb_true_iff in E. inversion Hw; subst. left. reflexivity.
+    + right. apply IH. exact Hw.
+Qed.
+
+(* For ANY duplicate-free n-bit set S' whose lookups are those of S overridden by the writes,
+   the verifier returns the root of S'. *)
+Theorem verify_update_correct_gen : forall (H : Hasher), HasherOK H ->
+  forall n S (W : list (key * option value)) S',
+  wf n S ->
+  sorted_keys (map fst W) = true ->
+  (forall k o, In (k, o) W -> length k = n) ->
+  wf n S' ->
+  (forall k, get S' k = match last_write W k with Some w => w | None => get S k end) ->
+  verify_update H n (root_n H n S) (group H n S W) = Ok (root_n H n S').
+Proof.
+  intros H HOK n S W S' [HndS HlenS] HsW HlenW [HndS' HlenS'] Hget.
+  destruct W as [|[k0 o0] W0] eqn:EW.
+  - cbn. f_equal. apply root_history_independent; try assumption.
+    intros k. rewrite Hget. reflexivity.
+  - rewrite <- EW in *.
+    assert (Hne : W <> []) by (rewrite EW; discriminate).
+    set (R0 := root_n H n S).
+    assert (Hgrp : group H n S W = ggroupL H (vp_at H R0 (mk n 0 S) 0 []) W).
+    { unfold group, ggroupL. rewrite group_fuel_ggroup. apply ggroup_ext.
+      intros c _. apply vp_of_at. }
+    rewrite Hgrp.
+    assert (HgS : goodkv n 0 [] S).
+    { split; [exact HndS|]. intros k v Hin. split; [eapply HlenS; exact Hin|reflexivity]. }
+    assert (HgS' : goodkv n 0 [] S').
+    { split; [exact HndS'|]. intros k v Hin. split; [eapply HlenS'; exact Hin|reflexivity]. }
+    assert (HgW : goodW n 0 [] W).
+    { split; [exact HsW|]. intros [k o] Hin. split; [eapply HlenW; exact Hin|reflexivity]. }
+    assert (HR : upd_rel S W S').
+    { intros k. rewrite Hget. rewrite last_write_wget by (apply sk_NoDup; exact HsW).
+      reflexivity. }
+    destruct (chk_segment H HOK n R0 n 0 [] [] S W [] None) as [y Hchk];
+      try assumption; try reflexivity; try exact I.
+    pose proof (segment H HOK n R0 n 0 [] [] S S' W [] []) as Hseg.
+    unfold segment_goal in Hseg. rewrite app_nil_r in Hchk, Hseg.
+    cbn [tlayer] in Hseg.
+    assert (Hvu : forall G, G <> [] ->
+              verify_update H n R0 G =
+              match check_paths H R0 None G with
+              | Some e => Err e
+              | None => bind (vu_loop H n G [])
+                          (fun pending => match pending with (nd, _) :: _ => Ok nd | [] => Panic end)
+              end).
+    { intros [|g G] HG; [congruence|reflexivity]. }
+    rewrite Hvu.
+    + rewrite Hchk. cbn [check_paths].
+      rewrite Hseg; try assumption; try reflexivity; try exact I; try (cbn; lia).
+    + rewrite EW. destruct (ggroupL_cons H (vp_at H R0 (mk n 0 S) 0 []) k0 o0 W0) as [ops [G HG]].
+      rewrite HG. discriminate.
+Qed.
+
+(* the applied change set is duplicate-free with n-bit keys when S is sorted *)
+Lemma apply_wf : forall n S (W : list (key * option value)),
+  wf n S -> kv_sorted S = true -> sorted_keys (map fst W) = true ->
+  (forall k o, In (k, o) W -> length k = n) -> wf n (apply S W).
+Proof.
+  intros n S W [HndS HlenS] HsS HsW HlenW.
+  assert (Hnd : NoDup (map fst (apply S W))).
+  { apply sorted_NoDup. apply apply_sorted. exact HsS. }
+  split; [exact Hnd|].
+  intros k v Hin. apply (get_In _ k v Hnd) in Hin.
+  rewrite get_apply in Hin. rewrite last_write_wget in Hin by (apply sk_NoDup; exact HsW).
+  destruct (wget W k) as [w|] eqn:Ew.
+  - apply wget_In in Ew. eapply HlenW. exact Ew.
+  - apply get_Some_In in Hin. eapply HlenS. exact Hin.
+Qed.
+
+(* The statement of the task, with the hypothesis [kv_sorted S = true] under which
+   [Base.apply] is meaningful (the store state always satisfies it). *)
+Theorem verify_update_correct : forall (H : Hasher), HasherOK H ->
+  forall n S (W : list (key * option value)),
+  wf n S ->
+  kv_sorted S = true ->
+  sorted_keys (map fst W) = true ->                   (* strictly ascending write keys *)
+  (forall k o, In (k, o) W -> length k = n) ->
+  verify_update H n (root_n H n S) (group H n S W) = Ok (root_n H n (apply S W)).
+Proof.
+  intros H HOK n S W Hwf HsS HsW HlenW.
+  apply verify_update_correct_gen; try assumption.
+  - apply apply_wf; assumption.
+  - intros k. apply get_apply.
+Qed.
+
+Corollary verify_update_total : forall (H : Hasher), HasherOK H -> forall n S W,
+  wf n S -> kv_sorted S = true ->
+  sorted_keys (map fst W) = true -> (forall k o, In (k, o) W -> length k = n) ->
+  verify_update H n (root_n H n S) (group H n S W) <> Panic.
+Proof.
+  intros H HOK n S W Hwf HsS HsW HlenW.
+  rewrite (verify_update_correct H HOK n S W Hwf HsS HsW HlenW). discriminate.
+Qed.
+
+(* ---------- C18: the per-path update verifier never panics ---------- *)
+
+(* what PathProof::verify guarantees about its result, for n-bit leaf keys *)
+Definition vp_wf (H : Hasher) (n : nat) (vp : verified H) : Prop :=
+  length (vp_path vp) = length (vp_siblings vp) /\ length (vp_path vp) <= n /\
+  (forall k v, vp_terminal vp = Some (k, v) -> is_prefix (vp_path vp) k = true).
+
+(* [verify] itself bounds the number of siblings by min(len kp, 256): no hypothesis on kp *)
+Lemma verify_vp_wf_any_kp : forall (H : Hasher) (p : path_proof H) kp root vp,
+  verify H p kp root = Ok vp -> vp_wf H 256 vp.
+Proof.
+  intros H p kp root vp Hv. unfold vp_wf.
+  pose proof (vp_path_length H p kp root vp Hv) as Hlen.
+  pose proof (verify_ok_terminal H p kp root vp Hv) as Hterm.
+  pose proof (verify_ok_inv H p kp root vp Hv) as [H1 [H2 [_ [_ [_ [H6 _]]]]]].
+  split; [rewrite Hlen, H6; reflexivity|].
+  split; [lia|exact Hterm].
+Qed.
+
+Lemma verify_vp_wf : forall (H : Hasher) (p : path_proof H) kp root vp,
+  verify H p kp root = Ok vp -> length kp <= 256 -> vp_wf H 256 vp.
+Proof. intros H p kp root vp Hv _. exact (verify_vp_wf_any_kp H p kp root vp Hv). Qed.
+
+Lemma common_le_r : forall a b : key, common a b <= length b.
+Proof.
+  induction a as [|x a IH]; intros [|y b]; cbn [common length]; try lia.
+  destruct (Bool.eqb x y); [|lia]. specialize (IH b). lia.
+Qed.
+
+Lemma check_ops_none_inv : forall (path : key) ops prev,
+  check_ops path prev ops = None ->
+  sorted_keys (match prev with Some q => q :: map fst ops | None => map fst ops end) = true /\
+  (forall c, In c ops -> is_prefix path (fst c) = true).
+Proof.
+  intros path. induction ops as [|[k o] ops IH]; intros prev Hc.
+  - split; [destruct prev; reflexivity|intros c []].
+  - cbn [check_ops] in Hc.
+    assert (Hk : is_prefix path k = true /\ check_ops path (Some k) ops = None /\
+                 match prev with Some q => key_ltb q k = true | None => True end).
+    { destruct prev as [q|].
+      - unfold path_ge in Hc. destruct (key_ltb q k); cbn [negb] in Hc; [|discriminate].
+        destruct (is_prefix path k); [|discriminate]. repeat split. exact Hc.
+      - destruct (is_prefix path k); [|discriminate]. repeat split. exact Hc. }
+    destruct Hk as [Hpk [Hrest Hlt]].
+    destruct (IH _ Hrest) as [Hs Hall]. split.
+    + destruct prev as [q|]; [|exact Hs].
+      cbn [map fst].
+      change (key_ltb q k && sorted_keys (k :: map fst ops) = true).
+      rewrite Hlt. exact Hs.
+    + intros c [Heq|Hin]; [subst c; exact Hpk|apply Hall; exact Hin].
+Qed.
+
+Lemma check_paths_none_inv : forall (H : Hasher) R (paths : list (path_update H)) prev,
+  check_paths H R prev paths = None ->
+  forall p, In p paths -> check_ops (vp_path (pu_inner p)) None (pu_ops p) = None.
+Proof.
+  intros H R. induction paths as [|p ps IH]; intros prev Hc q Hin.
+  - destruct Hin.
+  - cbn [check_paths] in Hc.
+    destruct (negb (node_eqb H (vp_root (pu_inner p)) R)); [discriminate|].
+    destruct (match prev with Some q0 => path_ge q0 (vp_path (pu_inner p)) | None => false end);
+      [discriminate|].
+    destruct (pu_ops p) as [|c0 ops0] eqn:Eops; [discriminate|].
+    destruct (check_ops (vp_path (pu_inner p)) None (c0 :: ops0)) as [e|] eqn:Eco; [discriminate|].
+    destruct Hin as [Heq|Hin].
+    + subst q. rewrite Eops. exact Eco.
+    + eapply IH; [exact Hc|exact Hin].
+Qed.
+
+Section NeverPanics.
+  Variable H : Hasher.
+  Variable n : nat.
+
+  (* per-path facts under which one iteration of the main loop cannot panic *)
+  Definition pu_good (p : path_update H) : Prop :=
+    length (vp_path (pu_inner p)) <= n /\
+    sorted_keys (map fst (pu_ops p)) = true /\
+    (forall c, In c (pu_ops p) ->
+       is_prefix (vp_path (pu_inner p)) (fst c) = true /\ length (fst c) = n) /\
+    (forall k v, vp_terminal (pu_inner p) = Some (k, v) ->
+       is_prefix (vp_path (pu_inner p)) k = true /\ length k = n).
+
+  (* build_trie is called on strictly sorted n-bit keys that share the [skip]-bit path *)
+  Lemma build_trie_good : forall p, pu_good p ->
+    exists sub, build_trie H n (length (vp_path (pu_inner p)))
+                  (leaf_ops_spliced (vp_terminal (pu_inner p)) (pu_ops p)) = Ok sub.
+  Proof.
+    intros p [Hlen [Hs [Hops Hterm]]].
+    set (path := vp_path (pu_inner p)) in *.
+    set (X := match vp_terminal (pu_inner p) with
+              | Some (lk, lv) => splice lk lv (pu_ops p)
+              | None => pu_ops p
+              end).
+    assert (Hl : leaf_ops_spliced (vp_terminal (pu_inner p)) (pu_ops p) = live_ops X).
+    { unfold leaf_ops_spliced, X. destruct (vp_terminal (pu_inner p)) as [[lk lv]|]; reflexivity. }
+    assert (HsX : sorted_keys (map fst X) = true).
+    { unfold X. destruct (vp_terminal (pu_inner p)) as [[lk lv]|]; [apply sorted_splice|]; exact Hs. }
+    assert (HallX : forall c, In c X -> is_prefix path (fst c) = true /\ length (fst c) = n).
+    { unfold X. intros c Hin. destruct (vp_terminal (pu_inner p)) as [[lk lv]|] eqn:Et.
+      - apply In_splice in Hin. destruct Hin as [Heq|Hin]; [|apply Hops; exact Hin].
+        subst c. cbn [fst]. apply (Hterm lk lv). reflexivity.
+      - apply Hops. exact Hin. }
+    rewrite Hl. eexists. apply build_trie_spec.
+    - exact Hlen.
+    - apply sorted_live. exact HsX.
+    - intros k v Hin. apply In_live in Hin. apply (HallX _ Hin).
+    - intros k v k' v' Hin Hin'. apply In_live in Hin. apply In_live in Hin'.
+      destruct (HallX _ Hin) as [P1 _]. destruct (HallX _ Hin') as [P2 _]. cbn [fst] in P1, P2.
+      apply is_prefix_firstn_eq in P1. apply is_prefix_firstn_eq in P2.
+      fold path. congruence.
+  Qed.
+
+  (* the [up_layers] computation of one iteration *)
+  Definition up_of (p : path_update H) (ps : list (path_update H)) : res vu_err nat :=
+    let skip := length (vp_path (pu_inner p)) in
+    match ps with
+    | [] => Ok skip
+    | q :: _ =>
+        let c := common (vp_path (pu_inner q)) (vp_path (pu_inner p)) in
+        if Nat.eqb c skip then Err PathsOutOfOrder
+        else if Nat.ltb skip (c + 1) then Panic else Ok (skip - (c + 1))
+    end.
+
+  Lemma vu_loop_cons : forall p ps pend,
+    vu_loop H n (p :: ps) pend =
+    match up_of p ps with
+    | Panic => Panic
+    | Err e => Err e
+    | Ok up =>
+        match build_trie H n (length (vp_path (pu_inner p)))
+                (leaf_ops_spliced (vp_terminal (pu_inner p)) (pu_ops p)) with
+        | Panic => Panic
+        | Err e => match e with end
+        | Ok sub_root =>
+            let '(cur_node, pending') :=
+              compact_up H (up_pairs H (vp_path (pu_inner p)) (vp_siblings (pu_inner p)) up)
+                         sub_root (length (vp_path (pu_inner p))) pend in
+            vu_loop H n ps ((cur_node, length (vp_path (pu_inner p)) - up) :: pending')
+        end
+    end.
+  Proof. intros p [|q ps] pend; reflexivity. Qed.
+
+  (* the usize subtraction [skip - (n + 1)] cannot underflow any more: the shared prefix is at
+     most [skip] bits long, and equality is now rejected with PathsOutOfOrder *)
+  Lemma vu_no_underflow : forall p ps, up_of p ps <> Panic.
+  Proof.
+    intros p [|q ps]; unfold up_of; [discriminate|].
+    pose proof (common_le_r (vp_path (pu_inner q)) (vp_path (pu_inner p))) as Hle.
+    destruct (Nat.eqb _ _) eqn:E1; [discriminate|].
+    destruct (Nat.ltb _ _) eqn:E2; [|discriminate].
+    apply Nat.eqb_neq in E1. apply Nat.ltb_lt in E2. lia.
+  Qed.
+
+  Lemma vu_loop_total : forall paths pend, (forall p, In p paths -> pu_good p) ->
+    vu_loop H n paths pend <> Panic /\
+    (forall r, vu_loop H n paths pend = Ok r -> paths <> [] \/ pend <> [] -> r <> []).
+  Proof.
+    induction paths as [|p ps IH]; intros pend Hg.
+    - cbn [vu_loop]. split; [discriminate|].
+      intros r Hr [Hn|Hn]; [congruence|]. inversion Hr; subst. exact Hn.
+    - rewrite vu_loop_cons.
+      pose proof (vu_no_underflow p ps) as Hup.
+      destruct (up_of p ps) as [up|e|]; [|split; [discriminate|intros r Hr; discriminate]|congruence].
+      destruct (build_trie_good p (Hg p (or_introl eq_refl))) as [sub Hsub]. rewrite Hsub.
+      destruct (compact_up H _ sub _ pend) as [cur pend'].
+      destruct (IH ((cur, length (vp_path (pu_inner p)) - up) :: pend')
+                   (fun q Hq => Hg q (or_intror Hq))) as [IH1 IH2].
+      split; [exact IH1|].
+      intros r Hr _. apply (IH2 r Hr). right. discriminate.
+  Qed.
+End NeverPanics.
+
+(* C18: the per-path update verifier is total on ANY verified paths, ANY operation lists, ANY
+   root - no collision-freeness needed *)
+Theorem verify_update_never_panics : forall (H : Hasher) root (paths : list (path_update H)),
+  (forall p, In p paths -> vp_wf H 256 (pu_inner p) /\
+     (forall k v, vp_terminal (pu_inner p) = Some (k, v) -> length k = 256) /\
+     (forall k o, In (k, o) (pu_ops p) -> length k = 256)) ->
+  verify_update H 256 root paths <> Panic.
+Proof.
+  intros H root paths Hall.
+  destruct paths as [|p0 ps0] eqn:Ep; [cbn; discriminate|]. rewrite <- Ep in *.
+  assert (Hne : paths <> []) by (rewrite Ep; discriminate).
+  assert (Hvu : verify_update H 256 root paths =
+                match check_paths H root None paths with
+                | Some e => Err e
+                | None => bind (vu_loop H 256 paths [])
+                            (fun pending => match pending with (nd, _) :: _ => Ok nd | [] => Panic end)
+                end).
+  { rewrite Ep. reflexivity. }
+  rewrite Hvu. clear Hvu Ep p0 ps0.
+  destruct (check_paths H root None paths) as [e|] eqn:Ec; [discriminate|].
+  assert (Hg : forall p, In p paths -> pu_good H 256 p).
+  { intros p Hin. destruct (Hall p Hin) as [[_ [Hlen Hpre]] [Htl Hol]].
+    pose proof (check_paths_none_inv H root paths None Ec p Hin) as Hco.
+    apply check_ops_none_inv in Hco. destruct Hco as [Hs Hunder].
+    split; [exact Hlen|]. split; [exact Hs|]. split.
+    - intros [k o] Hc. split; [apply Hunder; exact Hc|]. cbn [fst]. eapply Hol. exact Hc.
+    - intros k v Ht. split; [eapply Hpre; exact Ht|eapply Htl; exact Ht]. }
+  destruct (vu_loop_total H 256 paths [] Hg) as [Hnp Hnon].
+  destruct (vu_loop H 256 paths []) as [r|e|] eqn:El; cbn [bind].
+  - specialize (Hnon r eq_refl (or_introl Hne)).
+    destruct r as [|[nd l] r]; [congruence|discriminate].
+  - discriminate.
+  - congruence.
+Qed.
+
+(* both new error branches are reachable in the model (they were the two panics of the pinned
+   tree): a leaf terminal outside the proven path, and a verified path that is a prefix of the
+   next one *)
+Example verify_terminal_out_of_path :
+  verify FreeH (Build_path_proof FreeH (TLeaf [true; false] 1%N) [FT])
+         [false; false] (FI FT (FL [true; false] 1%N)) = Err TerminalOutOfPath.
+Proof. reflexivity. Qed.
+
+Example verify_update_prefix_paths :
+  let R := FO KInt 7%N in
+  verify_update FreeH 2 R
+    [ Build_path_update FreeH (Build_verified FreeH [false] None [FO KInt 1%N] R)
+                        [([false; false], Some 1%N)];
+      Build_path_update FreeH (Build_verified FreeH [false; true] None [FO KInt 1%N; FO KInt 2%N] R)
+                        [([false; true], Some 2%N)] ] = Err PathsOutOfOrder.
+Proof. vm_compute. reflexivity. Qed.
+
+(* ---------- why [kv_sorted S] is needed ---------- *)
+
+(* The statement with [wf n S] only is false: [Base.ins] assumes a sorted list.  For
+   S = [([true],1); ([false],2)] and W = [([false], Some 5)],
+   [apply S W = [([false],5); ([true],1); ([false],2)]] has a duplicate key, so its [root_n] is
+   [FI FT (FL [true] 1)] (mk runs out of fuel on the duplicate), whereas the verifier correctly
+   returns [FI (FL [false] 5) (FL [true] 1)].  The defect is in the spec-side [apply] on
+   unsorted input, not in [group] / [verify_update]. *)
+Lemma verify_update_unsorted_counterexample :
+  ~ (forall (H : Hasher), HasherOK H ->
+     forall n S (W : list (key * option value)),
+     wf n S ->
+     sorted_keys (map fst W) = true ->
+     (forall k o, In (k, o) W -> length k = n) ->
+     verify_update H n (root_n H n S) (group H n S W) = Ok (root_n H n (apply S W))).
+Proof.
+  intros Hall.
+  specialize (Hall FreeH FreeH_OK 1 [([true], 1%N); ([false], 2%N)] [([false], Some 5%N)]).
+  assert (Hwf : wf 1 [([true], 1%N); ([false], 2%N)]).
+  { split.
+    - cbn [map fst]. constructor.
+      + intros [Heq|[]]. discriminate.
+      + constructor; [intros []|constructor].
+    - intros k v [Heq|[Heq|[]]]; inversion Heq; reflexivity. }
+  specialize (Hall Hwf eq_refl).
+  assert (Hlen : forall k (o : option value), In (k, o) [([false], Some 5%N)] -> length k = 1).
+  { intros k o [Heq|[]]. inversion Heq. reflexivity. }
+  specialize (Hall Hlen). vm_compute in Hall. discriminate.
 Qed.
